@@ -1212,48 +1212,6 @@ Proof.
       * intros y' u' k' n' p H. apply (Hev y' u' k' n' p). right. exact H.
 Qed.
 
-Lemma flat_map_upd_notin {A} (f : Z -> list A) x v l : ~ In x l -> flat_map (fun y => if y =? x then v else f y) l = flat_map f l.
-Proof.
-  induction l as [|a l IH]; intros H; [reflexivity|]. cbn [flat_map]. destruct (a =? x) eqn:E.
-  - exfalso. apply H. left. lia.
-  - rewrite IH; [reflexivity|]. intros H'. apply H. right. exact H'.
-Qed.
-
-Lemma weight_upd pend x v pids : NoDup pids -> In x pids ->
-  (length (flat_map (upd pend x v) pids) + length (pend x) = length (flat_map pend pids) + length v)%nat.
-Proof.
-  intros Hnd Hin. induction pids as [|a l IH]; [contradiction|]. apply NoDup_cons_iff in Hnd. destruct Hnd as [Ha Hnd].
-  cbn [flat_map]. rewrite !app_length. destruct (Z.eq_dec a x) as [->|Hne].
-  - rewrite upd_same'. unfold upd at 1. rewrite (flat_map_upd_notin pend x v l Ha). lia.
-  - rewrite (upd_other' pend x v a Hne). destruct Hin as [E|Hin]; [congruence|]. specialize (IH Hnd Hin). lia.
-Qed.
-
-Theorem expect_length pids : NoDup pids -> forall evs pend,
-  (forall x u k n p, In (EPkt x u k n p) evs -> In x pids /\ (k = 0%nat -> (length (unit_data x u (sp_pkt p)) <= 188)%nat)) ->
-  (length (StreamSpec.expect pids pend evs) <= length (flat_map pend pids) + 188 * length evs)%nat.
-Proof.
-  intros Hnd. induction evs as [|e r IH]; intros pend Hev; [cbn [StreamSpec.expect length]; lia|].
-  assert (Hr : forall x u k n p, In (EPkt x u k n p) r -> In x pids /\ (k = 0%nat -> (length (unit_data x u (sp_pkt p)) <= 188)%nat)).
-  { intros x u k n p H. apply (Hev x u k n p). right. exact H. }
-  destruct e as [q|x u k n q]; cbn [StreamSpec.expect].
-  - specialize (IH pend Hr). cbn [length]. lia.
-  - destruct (Hev x u k n q ltac:(left; reflexivity)) as [Hin Hsmall].
-    assert (Hstep : (length (fst (ev_out pend x u k n q)) + length (flat_map (snd (ev_out pend x u k n q)) pids)
-                     <= length (flat_map pend pids) + 188)%nat).
-    { unfold ev_out. destruct (k =? 0)%nat eqn:Ek.
-      - apply Nat.eqb_eq in Ek. specialize (Hsmall Ek). set (ud := unit_data x u (sp_pkt q)) in *.
-        pose proof (weight_upd pend x ud pids Hnd Hin) as W1.
-        destruct (completes u k n); cbn [fst snd].
-        + pose proof (weight_upd (upd pend x ud) x [] pids Hnd Hin) as W2. rewrite upd_same' in W2 |- *.
-          rewrite app_length. cbn [length] in W2. lia.
-        + lia.
-      - destruct (completes u k n); cbn [fst snd app].
-        + pose proof (weight_upd pend x [] pids Hnd Hin) as W2. cbn [length] in W2. lia.
-        + cbn [length]. lia. }
-    destruct (ev_out pend x u k n q) as [o p']. cbn [fst snd] in Hstep. rewrite app_length.
-    specialize (IH p' Hr). cbn [length]. lia.
-Qed.
-
 (* ---------------- counting: the data of a stream are fewer than its bytes ---------------- *)
 
 Fixpoint sum_over (f : Z -> nat) (l : list Z) : nat := match l with [] => 0%nat | a :: r => (f a + sum_over f r)%nat end.
